@@ -1,6 +1,7 @@
 import SiaModel.Policy.Verify
 import SiaModel.Policy.Address
 import SiaModel.Policy.Codec
+import SiaModel.Policy.Txn
 import SiaModel.Prim.Sha256
 /-!
   Line-protocol ops for C14 (spend policies).
@@ -23,6 +24,9 @@ import SiaModel.Prim.Sha256
     policy-decode <hex>             → "ok <policy>" | "reject"
     policy-std <pkhex> <timelockLeafHex> <sigsreqLeafHex>
         → "<StandardAddress hex> <StandardUnlockHash hex>"
+    policy-txn <height> <medianUnix> <sighashHex> (<policy> <sigs> <pres> <keys> <valid> <parentAddressHex>)*
+        the policy part of validateV2Siacoins/validateV2Siafunds over the inputs in order
+        → "accept" | "reject:<input index>:wrong-policy" | "reject:<input index>:<class>"
     policy-unlockhash <uc policy> <timelockLeafHex> <sigsreqLeafHex>
         → hex of UnlockConditions.UnlockHash() (fast path included)
 -/
@@ -177,6 +181,39 @@ def policyStdOp (args : List String) : String :=
     | _, _, _ => "bad-op"
   | _ => "bad-op"
 
+private def txnInputs (sh : ByteArray) :
+    List String → Option (List TxInput × List (ByteArray × ByteArray))
+  | [] => some ([], [])
+  | p :: sigs :: pres :: keys :: valid :: addr :: rest => do
+    let p ← parsePolicy p
+    let sigs ← hexList sigs
+    let pres ← hexList pres
+    let keys ← hexList keys
+    let valid ← pairList valid
+    let addr ← hexDecode addr
+    let table : List (ByteArray × ByteArray) := valid.map fun (ki, si) => (getAt keys ki, getAt sigs si)
+    let (ins, tbl) ← txnInputs sh rest
+    pure (⟨p, sigs, pres, addr⟩ :: ins, table ++ tbl)
+  | _ => none
+
+def policyTxnOp (args : List String) : String :=
+  match args with
+  | h :: m :: sh :: rest =>
+    match h.toNat?, m.toInt?, hexDecode sh with
+    | some h, some m, some sh =>
+      match txnInputs sh rest with
+      | some (ins, table) =>
+        let vs : ByteArray → ByteArray → ByteArray → Bool := fun k hh s =>
+          hh == sh && table.any fun (k', s') => k' == k && s' == s
+        let E : Env := { height := h, median := m, sigHash := sh, verifySig := vs, sha := sha256 }
+        match validateInputs blake2b256 E ins with
+        | .ok _ => "accept"
+        | .error (.wrongPolicy i) => s!"reject:{i}:wrong-policy"
+        | .error (.unsatisfied i e) => s!"reject:{i}:" ++ e.name
+      | none => "bad-op"
+    | _, _, _ => "bad-op"
+  | _ => "bad-op"
+
 def policyUnlockHashOp (args : List String) : String :=
   match args with
   | [p, tl, sr] => match parsePolicy p, hexDecode tl, hexDecode sr with
@@ -190,5 +227,6 @@ namespace Sia.Driver
 def policyOps : List (String × (List String → String)) :=
   [("policy-verify", policyVerifyOp), ("policy-address", policyAddressOp),
    ("policy-encode", policyEncodeOp), ("policy-decode", policyDecodeOp),
-   ("policy-std", policyStdOp), ("policy-unlockhash", policyUnlockHashOp)]
+   ("policy-std", policyStdOp), ("policy-unlockhash", policyUnlockHashOp),
+   ("policy-txn", policyTxnOp)]
 end Sia.Driver
